@@ -2,7 +2,7 @@
    Directives: ExtrOcamlBasic only (bool, option, list, prod, unit, sumbool -> OCaml);
    N / Z / positive / nat stay the extracted inductive datatypes. *)
 From Coq Require Extraction ExtrOcamlBasic.
-From TV Require C14Run C19Run C16Run C17Run C15Run C20Run C12Run.
+From TV Require C14Run C19Run C16Run C17Run C15Run C20Run C12Run C18Run.
 Extraction Language OCaml.
 Extraction "model.ml" C14Run.run_c14 C14Run.chk_c14
   C19Run.run_c19 C19Run.chk_c19
@@ -10,4 +10,5 @@ Extraction "model.ml" C14Run.run_c14 C14Run.chk_c14
   C17Run.run_c17 C17Run.chk_c17
   C15Run.run_c15 C15Run.chk_c15
   C20Run.run_c20 C20Run.chk_c20
-  C12Run.run_c12 C12Run.chk_c12.
+  C12Run.run_c12 C12Run.chk_c12
+  C18Run.run_c18 C18Run.chk_c18.
